@@ -25,14 +25,14 @@ import (
 )
 
 type c03Case struct {
-	Kind    string      `json:"kind"` // "gen" | "pkg"
-	Snippet *c03Snippet `json:"snippet,omitempty"`
-	Ord     int         `json:"ord,omitempty"`
-	Source  string      `json:"source,omitempty"`
-	Corpus  string      `json:"corpus,omitempty"`
-	Root    string      `json:"root,omitempty"` // repo-relative directory of a testdata tree
-	Pattern string      `json:"pattern,omitempty"`
-	Class   string      `json:"class"`
+	Kind     string        `json:"kind"` // "gen" | "pkg"
+	Snippets []*c03Snippet `json:"snippets,omitempty"`
+	Ords     []int         `json:"ords,omitempty"`
+	Source   string        `json:"source,omitempty"`
+	Corpus   string        `json:"corpus,omitempty"`
+	Root     string        `json:"root,omitempty"` // repo-relative directory of a testdata tree
+	Pattern  string        `json:"pattern,omitempty"`
+	Class    string        `json:"class"`
 }
 
 type c03H struct {
@@ -44,15 +44,20 @@ type c03H struct {
 	repo    string
 	par     int
 
-	mu         sync.Mutex
-	sigCount   map[string]int
-	minimal    int
-	infraNotes int
-	seq        atomic.Int64
-	pkgsOK     atomic.Int64
-	snipsOK    atomic.Int64
-	runs       atomic.Int64
-	kindsSeen  map[string]bool
+	mu          sync.Mutex
+	sigCount    map[string]int
+	sigMu       map[string]*sync.Mutex
+	sigReported map[string]bool
+	// exploration stops at the budget; minimising a failure that was already observed may use
+	// a grace period beyond it
+	bisectDeadline time.Time
+	minimal        int
+	infraNotes     int
+	seq            atomic.Int64
+	pkgsOK         atomic.Int64
+	snipsOK        atomic.Int64
+	runs           atomic.Int64
+	kindsSeen      map[string]bool
 }
 
 const (
@@ -151,10 +156,12 @@ func TestVerifC03(t *testing.T) {
 	if shard, _ := vx.Shard(); shard != 0 {
 		return
 	}
-	res.SetBudget(vx.Budget(210*time.Second, 23*time.Minute))
+	budget := vx.Budget(210*time.Second, 23*time.Minute)
+	res.SetBudget(budget)
 	scratch := vx.ScratchDir()
 	h := &c03H{t: t, res: res, bin: bin, scratch: scratch, cache: filepath.Join(scratch, "sc-cache"), repo: vx.RepoDir(),
-		sigCount: map[string]int{}, kindsSeen: map[string]bool{}}
+		sigCount: map[string]int{}, sigReported: map[string]bool{}, kindsSeen: map[string]bool{},
+		bisectDeadline: time.Now().Add(budget + vx.Pick(5*time.Minute, 10*time.Minute))}
 	h.par = max(2, min(4, runtime.NumCPU()/4))
 	os.MkdirAll(h.cache, 0o755)
 
@@ -168,9 +175,9 @@ func TestVerifC03(t *testing.T) {
 	}
 
 	h.timed("gen", h.genPhase)
-	h.timed("testdata", h.testdataPhase)
-	h.timed("repo", h.repoPhase)
 	h.timed("std", h.stdPhase)
+	h.timed("repo", h.repoPhase)
+	h.timed("testdata", h.testdataPhase)
 
 	res.States = h.pkgsOK.Load()
 	res.Transitions = h.snipsOK.Load()
@@ -314,8 +321,20 @@ func (h *c03H) genPhase() {
 		if res.Expired() {
 			return
 		}
+		// one go command for the chunk; packages it rejects are looked at one by one
+		var pats []string
 		for _, i := range chunks[ci] {
-			inScope[i] = h.genCompile(root, pkgs, i)
+			pats = append(pats, "./"+pkgs[i].Name)
+		}
+		list, _, err := c03GoList(root, nil, false, pats)
+		okByName := map[string]bool{}
+		if err == nil {
+			for _, e := range list {
+				okByName[e.Name] = e.OK() && e.Export != ""
+			}
+		}
+		for _, i := range chunks[ci] {
+			inScope[i] = okByName[pkgs[i].Name] || h.genCompile(root, pkgs, i)
 		}
 	})
 	res.Count("wall_ms_gen_compile", time.Since(tC).Milliseconds())
@@ -431,47 +450,210 @@ func (h *c03H) genCheck(root string, ps []*c03Pkg) {
 		h.genCheck(root, ps[mid:])
 		return
 	}
-	p := ps[0]
-	all := make([]int, len(p.Snips))
-	for i := range all {
-		all[i] = i
+	h.genPackage(ps[0], o, v)
+	h.pkgsOK.Add(1)
+}
+
+func (h *c03H) sigLock(sig string) *sync.Mutex {
+	h.mu.Lock()
+	defer h.mu.Unlock()
+	if h.sigMu == nil {
+		h.sigMu = map[string]*sync.Mutex{}
 	}
-	// a compile/config problem names its position: try that snippet first
-	if v.Where != nil {
-		if j := p.SnippetAt(filepath.Base(v.Where.Location.File), v.Where.Location.Line); j >= 0 {
-			h.genBisect(p, []int{j})
-			var rest []int
-			for _, i := range all {
-				if i != j {
-					rest = append(rest, i)
-				}
+	m := h.sigMu[sig]
+	if m == nil {
+		m = new(sync.Mutex)
+		h.sigMu[sig] = m
+	}
+	return m
+}
+
+func (h *c03H) exhausted(sig string) bool {
+	h.mu.Lock()
+	defer h.mu.Unlock()
+	return h.sigCount[sig] >= c03MaxPerSig || h.minimal >= c03MaxMinimal
+}
+
+// genPackage: package p failed as a whole (o, v). Find the first failing snippet by binary
+// search, report it, remove it, and look at the rest again. A crash kills the process, so a
+// defect that is already witnessed c03MaxPerSig times masks the rest of a package that still
+// dies of it: that is said (exhaustive:false), not hidden.
+func (h *c03H) genPackage(p *c03Pkg, o c03Outcome, v c03Verdict) {
+	remaining := make([]int, len(p.Snips))
+	for i := range remaining {
+		remaining[i] = i
+	}
+	for len(remaining) > 0 {
+		sig := v.Sig()
+		mu := h.sigLock(sig)
+		mu.Lock()
+		if h.exhausted(sig) {
+			mu.Unlock()
+			h.res.Count("snippets_masked_by_reported_crash", int64(len(remaining)))
+			h.res.NotExhaustive(fmt.Sprintf("%d snippets of %s are masked by an already reported failure (%s)", len(remaining), p.Name, sig))
+			return
+		}
+		var hint []int
+		if v.Where != nil {
+			// a compile/config problem names its position
+			if j := p.SnippetAt(filepath.Base(v.Where.Location.File), v.Where.Location.Line); j >= 0 {
+				hint = []int{j}
 			}
-			all = rest
+		}
+		w, ok := h.genFindFirst(p, remaining, hint, o, v)
+		mu.Unlock()
+		if !ok {
+			return
+		}
+		var rest []int
+		for _, i := range remaining {
+			if i != w {
+				rest = append(rest, i)
+			}
+		}
+		remaining = rest
+		if len(remaining) == 0 {
+			return
+		}
+		o, v, _ = h.genSubset(p, remaining)
+		switch {
+		case v.Class == "":
+			h.res.Eval(int64(len(remaining)))
+			h.snipsOK.Add(int64(len(remaining)))
+			return
+		case v.Class == "infra":
+			h.infra("re-analysis of "+p.Name, v)
+			return
 		}
 	}
-	h.genBisect(p, all)
-	h.pkgsOK.Add(1)
+}
+
+func (h *c03H) violateSubset(p *c03Pkg, idx []int, o c03Outcome, v c03Verdict, src, why string) {
+	c := c03Case{Kind: "gen", Class: v.Class, Source: src}
+	var ids []string
+	for _, i := range idx {
+		c.Snippets = append(c.Snippets, p.Snips[i])
+		c.Ords = append(c.Ords, i)
+		ids = append(ids, p.Snips[i].ID+"#"+p.Snips[i].Hash())
+	}
+	key := ""
+	if len(idx) == 1 {
+		s := p.Snips[idx[0]]
+		key = fmt.Sprintf("gen:%s:%s:%s", s.ID, s.Hash(), v.Class)
+	} else {
+		key = fmt.Sprintf("gen-subset:%d:%s:%s", len(idx), (&c03Snippet{Text: strings.Join(ids, "\n")}).Hash(), v.Class)
+	}
+	if len(src) > 6000 {
+		src = src[:6000] + "\n..."
+	}
+	msg := fmt.Sprintf("staticcheck -checks=all on a package the toolchain compiles: %s: %s%s\nexit status %d\n--- stderr\n%s\n--- package (%d snippets)\n%s", v.Class, v.Detail, why, o.Exit, c03Head(o.Stderr, 25), len(idx), src)
+	h.res.Violate(key, msg, c)
+}
+
+// genFindFirst: the subset idx of p fails (o, v). Returns the ordinal of a snippet that fails
+// on its own (reported as a violation after 5 identical runs). If the failure cannot be
+// narrowed (deadline, interaction between snippets) the smallest failing subset seen is reported.
+func (h *c03H) genFindFirst(p *c03Pkg, idx []int, hint []int, o c03Outcome, v c03Verdict) (int, bool) {
+	failing, fo, fv, fsrc := idx, o, v, ""
+	try := func(sub []int) (bad bool, stop bool) {
+		o2, v2, src := h.genSubset(p, sub)
+		switch {
+		case v2.Class == "infra":
+			h.infra("bisection of "+p.Name, v2)
+			return false, true
+		case v2.Bad():
+			failing, fo, fv, fsrc = sub, o2, v2, src
+			return true, false
+		}
+		h.res.Eval(int64(len(sub)))
+		h.snipsOK.Add(int64(len(sub)))
+		return false, false
+	}
+	giveUp := func(why string) (int, bool) {
+		if fsrc == "" {
+			_, _, fsrc = h.genSubsetFiles(p, failing)
+		}
+		h.mu.Lock()
+		first := !h.sigReported[fv.Sig()]
+		h.sigReported[fv.Sig()] = true
+		h.mu.Unlock()
+		if first {
+			h.violateSubset(p, failing, fo, fv, fsrc, why)
+		}
+		h.res.NotExhaustive("a failing batch of " + p.Name + " was not minimised:" + why)
+		return -1, false
+	}
+	if len(hint) == 1 && len(idx) > 1 {
+		if bad, stop := try(hint); stop {
+			return giveUp(" (infrastructure trouble during bisection)")
+		} else if bad {
+			idx = hint
+		}
+	}
+	for len(idx) > 1 {
+		if time.Now().After(h.bisectDeadline) {
+			return giveUp(" (time budget reached during bisection)")
+		}
+		mid := len(idx) / 2
+		bad, stop := try(idx[:mid])
+		if stop {
+			return giveUp(" (infrastructure trouble during bisection)")
+		}
+		if bad {
+			idx = idx[:mid]
+		} else {
+			idx = idx[mid:]
+		}
+	}
+	// replay before report: 5 identical runs of the single snippet
+	for i := 0; i < 5; i++ {
+		bad, stop := try(idx)
+		if stop {
+			return giveUp(" (infrastructure trouble during bisection)")
+		}
+		if !bad {
+			if i == 0 {
+				return giveUp(" (the failure needs more than one of these snippets, or is not deterministic)")
+			}
+			h.note("unstable: snippet %s failed %d times and then passed", p.Snips[idx[0]].ID, i)
+			h.res.NotExhaustive("unstable failure of " + p.Snips[idx[0]].ID)
+			return -1, false
+		}
+	}
+	h.mu.Lock()
+	h.sigCount[fv.Sig()]++
+	h.sigReported[fv.Sig()] = true
+	h.minimal++
+	h.mu.Unlock()
+	h.violateSubset(p, idx, fo, fv, fsrc, "")
+	return idx[0], true
 }
 
 // genSubset renders the snippets idx of p (ordinals preserved) as a one-package module and runs
 // the binary on it.
-func (h *c03H) genSubset(p *c03Pkg, idx []int) (c03Outcome, c03Verdict, string) {
+func (h *c03H) genSubsetFiles(p *c03Pkg, idx []int) (string, map[string]string, string) {
 	name := fmt.Sprintf("b%05d", h.seq.Add(1))
-	dir := filepath.Join(h.scratch, "bisect", name)
 	sub := &c03Pkg{Name: name, Snips: p.Snips, Only: map[int]bool{}}
 	for _, i := range idx {
 		sub.Only[i] = true
 	}
 	files := sub.Render()
 	files["go.mod"] = c03GenMod
-	c03WriteFiles(dir, files)
-	defer os.RemoveAll(dir)
 	var src []string
 	for _, n := range []string{"a.go", "b_go121.go"} {
 		if s, ok := files[n]; ok {
 			src = append(src, "// file "+n+"\n"+s)
 		}
 	}
+	return name, files, strings.Join(src, "\n")
+}
+
+func (h *c03H) genSubset(p *c03Pkg, idx []int) (c03Outcome, c03Verdict, string) {
+	name, files, srcText := h.genSubsetFiles(p, idx)
+	dir := filepath.Join(h.scratch, "bisect", name)
+	c03WriteFiles(dir, files)
+	defer os.RemoveAll(dir)
+	src := []string{srcText}
 	o, v := h.run(dir, nil, false, []string{"."})
 	if v.Class == "compile" || v.Class == "config" {
 		// only a verdict if the toolchain accepts this very package
@@ -483,74 +665,27 @@ func (h *c03H) genSubset(p *c03Pkg, idx []int) (c03Outcome, c03Verdict, string) 
 	return o, v, strings.Join(src, "\n")
 }
 
-func (h *c03H) genBisect(p *c03Pkg, idx []int) {
-	if len(idx) == 0 {
-		return
-	}
-	if h.res.Expired() {
-		h.res.NotExhaustive("time budget: bisection of " + p.Name + " abandoned")
-		return
-	}
-	o, v, src := h.genSubset(p, idx)
-	switch {
-	case v.Class == "":
-		h.res.Eval(int64(len(idx)))
-		h.snipsOK.Add(int64(len(idx)))
-		return
-	case v.Class == "infra":
-		h.infra("bisection of "+p.Name, v)
-		return
-	}
-	h.mu.Lock()
-	stop := h.sigCount[v.Sig()] >= c03MaxPerSig || h.minimal >= c03MaxMinimal
-	h.mu.Unlock()
-	if stop {
-		h.res.NotExhaustive(fmt.Sprintf("%d snippets of %s fail like an already reported case (%s) and were not minimised further", len(idx), p.Name, v.Sig()))
-		return
-	}
-	if len(idx) > 1 {
-		mid := len(idx) / 2
-		h.genBisect(p, idx[:mid])
-		h.genBisect(p, idx[mid:])
-		return
-	}
-	// minimal: replay before report
-	s := p.Snips[idx[0]]
-	for i := 0; i < 4; i++ {
-		_, v2, _ := h.genSubset(p, idx)
-		if v2.Class != v.Class {
-			h.note("unstable: snippet %s failed with %s once and then with %q", s.ID, v.Class, v2.Class)
-			h.res.NotExhaustive("unstable failure of " + s.ID)
-			return
-		}
-	}
-	h.mu.Lock()
-	h.sigCount[v.Sig()]++
-	h.minimal++
-	h.mu.Unlock()
-	h.res.Eval(1)
-	h.snipsOK.Add(1)
-	key := fmt.Sprintf("gen:%s:%s:%s", s.ID, s.Hash(), v.Class)
-	msg := fmt.Sprintf("staticcheck -checks=all on a package the toolchain compiles: %s: %s\nexit status %d\n--- stderr\n%s\n--- minimal package\n%s", v.Class, v.Detail, o.Exit, c03Head(o.Stderr, 25), src)
-	h.res.Violate(key, msg, c03Case{Kind: "gen", Snippet: s, Ord: idx[0], Source: src, Class: v.Class})
-}
-
 func (h *c03H) replay(c c03Case) {
 	switch c.Kind {
 	case "gen":
-		p := &c03Pkg{Name: "p", Snips: make([]*c03Snippet, c.Ord+1)}
-		p.Snips[c.Ord] = c.Snippet
+		n := 0
+		for _, o := range c.Ords {
+			n = max(n, o+1)
+		}
+		p := &c03Pkg{Name: "p", Snips: make([]*c03Snippet, n)}
+		for i, o := range c.Ords {
+			p.Snips[o] = c.Snippets[i]
+		}
 		for i := range p.Snips {
 			if p.Snips[i] == nil {
 				p.Snips[i] = &c03Snippet{ID: "pad", Text: ""}
 			}
 		}
-		o, v, src := h.genSubset(p, []int{c.Ord})
+		o, v, src := h.genSubset(p, c.Ords)
 		h.res.Eval(1)
-		h.res.States, h.res.Transitions, h.res.Validated = 1, 1, 1
+		h.res.States, h.res.Transitions, h.res.Validated = 1, int64(len(c.Ords)), 1
 		if v.Bad() {
-			s := c.Snippet
-			h.res.Violate(fmt.Sprintf("gen:%s:%s:%s", s.ID, s.Hash(), v.Class), fmt.Sprintf("%s: %s\nexit status %d\n--- stderr\n%s\n--- package\n%s", v.Class, v.Detail, o.Exit, c03Head(o.Stderr, 25), src), c)
+			h.violateSubset(p, c.Ords, o, v, src, "")
 		}
 	case "pkg":
 		h.replayPkg(c)
